@@ -223,12 +223,12 @@ def _fixed_timezone(ctx) -> None:
 
 def run(ctx) -> None:
     ctx.explanation = EXPLANATION
-    _temporal(ctx, "datetime", "DateTime", "_getstate", F7)
-    _temporal(ctx, "time", "Time", "_get_state", recon.TIME_F)
-    _deepcopy_temporal(ctx)
-    _duration(ctx)
-    _interval(ctx)
-    _fixed_timezone(ctx)
+    ctx.step(_temporal, ctx, "datetime", "DateTime", "_getstate", F7)
+    ctx.step(_temporal, ctx, "time", "Time", "_get_state", recon.TIME_F)
+    ctx.step(_deepcopy_temporal, ctx)
+    ctx.step(_duration, ctx)
+    ctx.step(_interval, ctx)
+    ctx.step(_fixed_timezone, ctx)
     # Date / Timezone must not define a partial hand-written path
     for modname, cls in (("date", "Date"), ("tz.timezone", "Timezone")):
         m = pmod(modname)
